@@ -158,7 +158,7 @@ def run(ctx):
     # two claimers on a store whose lock file is missing (re-created on demand) or whose log ends in a killed writer's fragment (repaired by the first writer)
     for i in range(4 if ctx.quick else 60):
         explore2.explore(ctx, "C01", r.fork(), kindsA=("claim_oldest",), kindsB=("claim_oldest",), max_points=(7 if ctx.quick else 40), state_cmds=8,
-                         weights={"new_task": 70, "new_epic": 6, "set": 10, "sequence": 14}, missing_lock=(i % 2 == 0), torn=(i % 2 == 1))
+                         weights={"new_task": 70, "new_epic": 6, "set": 10, "sequence": 14}, missing_lock=(i % 2 == 0), torn=(i % 2 == 1), with_stat=(i % 2 == 0), b_modes=("complete", "hold", "hold_read"))
     ctx.cov["rule"] = ("claim ∥ compact/plan/prune/set two-process schedules (also on a legacy-named log) with serial-equivalence and reply oracles; real `claim` processes: claimer A parked (strace SIGSTOP) after each of its system calls between lock and unlock, claimer B run meanwhile (must get `lock busy`, promptly), "
                        "A resumed; and 2–6 claimers started together under the OS scheduler; audit from the final log: each winner got the head of the ready list of the log prefix before "
                        "its claim line, claim+state lines adjacent, no task twice, replies = log, winners doing/claimed; claim's system-call program compared with the expected one")
